@@ -448,8 +448,8 @@ func specStay(v int) bool {
 
 //@ func (l *Lexer) readRawString
 //@   props C10 C11 C07
-//@   loop 1 each [plain@C07] implies(!(byteAt(l.input, atHead(l.position)+1) == '\\' && byteAt(l.input, atHead(l.position)+2) == '`'), writeSeq(evByte(byteAt(l.input, atHead(l.position)+1))))
-//@   loop 1 each [backtick@C07] implies(byteAt(l.input, atHead(l.position)+1) == '\\' && byteAt(l.input, atHead(l.position)+2) == '`', writeSeq(evByte('`')))
+//@   loop 1 each [plain@C07] implies(!(byteAt(l.input, atHead(l.position)+1) == '\\' && byteAt(l.input, atHead(l.position)+2) == '`'), writeSeq(evByte(byteAt(l.input, atHead(l.position)+1))) && l.position == atHead(l.position)+1)
+//@   loop 1 each [backtick@C07] implies(byteAt(l.input, atHead(l.position)+1) == '\\' && byteAt(l.input, atHead(l.position)+2) == '`', writeSeq(evByte('`')) && l.position == atHead(l.position)+2)
 //@   requires lexInv(l) && l.position < len(l.input)
 //@   modifies l.position, l.readPosition, l.CurrentChar, l.Line, l.Column
 //@   loop 1 invariant [cursor] lexInv(l) && old(l.position) <= l.position
@@ -468,8 +468,8 @@ func specStay(v int) bool {
 //@   loop 1 decreases len(l.input) - l.position
 //@   loop 2 invariant [cursor] lexInv(l) && old(l.position) < l.position && atEntry(l.position) <= l.position
 //@   loop 2 decreases len(l.input) - l.position
-//@   loop 1 each [plain@C07] implies(byteAt(l.input, atHead(l.position)+1) != '\\', writeSeq(evOpt(byteAt(l.input, atHead(l.position)+1) == '"', evByte('\\')), evByte(byteAt(l.input, atHead(l.position)+1))))
-//@   loop 1 each [escape.keep@C07] implies(byteAt(l.input, atHead(l.position)+1) == '\\' && byteAt(l.input, atHead(l.position)+2) != 'x' && byteAt(l.input, atHead(l.position)+2) != 'u', writeSeq(evByte('\\'), evByte(byteAt(l.input, atHead(l.position)+2))))
+//@   loop 1 each [plain@C07] implies(byteAt(l.input, atHead(l.position)+1) != '\\', writeSeq(evOpt(byteAt(l.input, atHead(l.position)+1) == '"', evByte('\\')), evByte(byteAt(l.input, atHead(l.position)+1))) && l.position == atHead(l.position)+1)
+//@   loop 1 each [escape.keep@C07] implies(byteAt(l.input, atHead(l.position)+1) == '\\' && byteAt(l.input, atHead(l.position)+2) != 'x' && byteAt(l.input, atHead(l.position)+2) != 'u', writeSeq(evByte('\\'), evByte(byteAt(l.input, atHead(l.position)+2))) && l.position == min(atHead(l.position)+2, len(l.input)))
 //@   loop 1 each [escape.hex@C07] implies(byteAt(l.input, atHead(l.position)+1) == '\\' && byteAt(l.input, atHead(l.position)+2) == 'x' && specHex(byteAt(l.input, atHead(l.position)+3)) && specHex(byteAt(l.input, atHead(l.position)+4)) && !specStay(specHexVal(byteAt(l.input, atHead(l.position)+3))*16+specHexVal(byteAt(l.input, atHead(l.position)+4))) && specHexVal(byteAt(l.input, atHead(l.position)+3))*16+specHexVal(byteAt(l.input, atHead(l.position)+4)) < 0x80, writeSeq(evByte(byte(specHexVal(byteAt(l.input, atHead(l.position)+3))*16+specHexVal(byteAt(l.input, atHead(l.position)+4))))))
 //@   loop 1 each [escape.hex.kept@C07] implies(byteAt(l.input, atHead(l.position)+1) == '\\' && byteAt(l.input, atHead(l.position)+2) == 'x' && specHex(byteAt(l.input, atHead(l.position)+3)) && specHex(byteAt(l.input, atHead(l.position)+4)) && (specStay(specHexVal(byteAt(l.input, atHead(l.position)+3))*16+specHexVal(byteAt(l.input, atHead(l.position)+4))) || specHexVal(byteAt(l.input, atHead(l.position)+3))*16+specHexVal(byteAt(l.input, atHead(l.position)+4)) >= 0x80), writeSeq(evByte('\\'), evByte('x'), evByte(byteAt(l.input, atHead(l.position)+3)), evByte(byteAt(l.input, atHead(l.position)+4))))
 //@   loop 1 each [escape.hex.invalid@C07] implies(byteAt(l.input, atHead(l.position)+1) == '\\' && byteAt(l.input, atHead(l.position)+2) == 'x' && !(specHex(byteAt(l.input, atHead(l.position)+3)) && specHex(byteAt(l.input, atHead(l.position)+4))), writeSeq(evByte('\\'), evByte('x')))
